@@ -30,6 +30,8 @@ CONSTANTS
   R, T, H,      \* resend interval, response timeout, heartbeat interval (ticks)
   MaxNow,       \* clock bound
   MaxNet,       \* datagrams in flight per direction
+  MaxRxq,       \* datagrams waiting in the socket's receive queue
+  MaxGwResend,  \* repetitions of one telegram by the gateway
   DupBudget, LossBudget, InjBudget,
   AdvReq,       \* the adversary also forges tunnelling requests (C04)
   GwFaultBudget,\* how often the gateway may answer a heartbeat / connect request badly or not at all (C09)
@@ -64,10 +66,12 @@ vars == <<now, srv, chan, sndSeq, rcvSeq, conn, mu, muq, snd, offers, hbNext, hb
           ackOpen, inbOpen, done, once, closer, starting, queued, reader, got, delivered, rxq, sockOpen,
           c2g, g2c, dups, losses, injs, gwf, gw, bus, nsend, ntele, nid, epoch, ev, act>>
 
-\* the variables that determine future behaviour (history and labels hidden)
+\* Everything except the labels `ev` and `act`. The histories `delivered` and `bus` stay in the view: the invariants
+\* NoDupDelivery / BusNoDup read them, and TLC evaluates an invariant only on states whose VIEW is new - hiding them
+\* would let a violating state be discarded as a duplicate of a harmless one. `nid` stays because worker ids flow into `hb`.
 view == <<now, srv, chan, sndSeq, rcvSeq, conn, mu, muq, snd, offers, hbNext, hb, hbOffers, failSig,
-          ackOpen, inbOpen, done, once, closer, starting, queued, reader, got, rxq, sockOpen,
-          c2g, g2c, dups, losses, injs, gwf, gw, nsend, ntele, epoch>>
+          ackOpen, inbOpen, done, once, closer, starting, queued, reader, got, delivered, rxq, sockOpen,
+          c2g, g2c, dups, losses, injs, gwf, gw, bus, nsend, ntele, nid, epoch>>
 
 NoEv == [k |-> "none", t |-> 0, g |-> -1, svc |-> "", ch |-> -1, seq |-> -1, st |-> -1, pid |-> -1,
          hex |-> "", a |-> -1, b |-> -1, s |-> ""]
@@ -116,7 +120,7 @@ Init ==
   /\ starting = {} /\ queued = << >> /\ reader = "idle" /\ got = -1 /\ delivered = << >>
   /\ rxq = << >> /\ sockOpen = TRUE
   /\ c2g = BagAdd(EmptyBag, Frame("ConnReq", -1, 0, -1, -1)) /\ g2c = EmptyBag /\ dups = 0 /\ losses = 0 /\ injs = 0 /\ gwf = 0
-  /\ gw = [conn |-> FALSE, ch |-> 0, expect |-> 0, seq |-> 0, pend |-> -1, att |-> -1]
+  /\ gw = [conn |-> FALSE, ch |-> 0, expect |-> 0, seq |-> 0, pend |-> -1, att |-> -1, rs |-> 0]
   /\ bus = << >> /\ nsend = 0 /\ ntele = 0 /\ nid = 0 /\ epoch = 0
   /\ ev = FrEv("Out", Frame("ConnReq", -1, 0, -1, -1))
   /\ act = Act("new", 0)
@@ -475,7 +479,7 @@ NetToGw ==
                /\ g2c' = G2C(Frame("ConnRes", gw.ch, -1, 0, -1))
                /\ ev' = NoEv /\ UNCHANGED <<gw, bus>>
           [] f.svc = "ConnReq" /\ ~(gw.conn /\ f.seq = gw.att) /\ f.seq >= gw.att ->
-               /\ gw' = [conn |-> TRUE, ch |-> (gw.ch % 2) + 1, expect |-> 0, seq |-> 0, pend |-> -1, att |-> f.seq]
+               /\ gw' = [conn |-> TRUE, ch |-> (gw.ch % 2) + 1, expect |-> 0, seq |-> 0, pend |-> -1, att |-> f.seq, rs |-> 0]
                /\ g2c' = G2C(Frame("ConnRes", (gw.ch % 2) + 1, -1, 0, -1))
                /\ ev' = SimEv("GwConnected", -1, -1, "") /\ UNCHANGED bus
           [] f.svc = "TunnelReq" /\ gw.conn /\ f.ch = gw.ch /\ f.seq = gw.expect /\ ~UseTCP ->
@@ -523,6 +527,7 @@ NetToGwFault ==
 NetToClient ==
   /\ \E f \in DOMAIN g2c :
      /\ g2c' = BagDel(g2c, f)
+     /\ Len(rxq) < MaxRxq          \* the socket's receive queue is finite: further datagrams wait in the network
      /\ IF sockOpen THEN rxq' = Append(rxq, f) ELSE UNCHANGED rxq
      /\ ev' = FrEv("Rx", f) /\ act' = ActF("g2c-deliver", f)
   /\ UNCHANGED <<now, srv, chan, sndSeq, rcvSeq, conn, mu, muq, snd, offers, hbNext, hb, hbOffers, failSig, ackOpen, inbOpen, done, once,
@@ -547,7 +552,7 @@ NetDup ==
 \* the gateway forwards a bus telegram / repeats it
 GwTelegram ==
   /\ EnableG2C /\ gw.conn /\ gw.pend = -1 /\ ntele < MaxTele /\ BagSize(g2c) < MaxNet
-  /\ gw' = [gw EXCEPT !.pend = 200 + ntele]
+  /\ gw' = [gw EXCEPT !.pend = 200 + ntele, !.rs = 0]
   /\ ntele' = ntele + 1
   /\ g2c' = BagAdd(g2c, Frame("TunnelReq", gw.ch, IF UseTCP THEN 0 ELSE gw.seq, -1, 200 + ntele))
   /\ ev' = NoEv /\ act' = Act("gwtele", 200 + ntele)
@@ -556,11 +561,13 @@ GwTelegram ==
 
 GwResend ==
   /\ EnableG2C /\ gw.conn /\ gw.pend # -1 /\ ~UseTCP /\ BagSize(g2c) < MaxNet
+  /\ gw.rs < MaxGwResend        \* the gateway repeats a telegram a bounded number of times (then it may give up)
   /\ Frame("TunnelReq", gw.ch, gw.seq, -1, gw.pend) \notin DOMAIN g2c
   /\ g2c' = BagAdd(g2c, Frame("TunnelReq", gw.ch, gw.seq, -1, gw.pend))
+  /\ gw' = [gw EXCEPT !.rs = @ + 1]
   /\ ev' = NoEv /\ act' = Act("gwresend", 0)
   /\ UNCHANGED <<now, srv, chan, sndSeq, rcvSeq, conn, mu, muq, snd, offers, hbNext, hb, hbOffers, failSig, ackOpen, inbOpen, done, once,
-                 closer, starting, queued, reader, got, delivered, rxq, sockOpen, c2g, dups, losses, injs, gwf, gw, bus, nsend, ntele, nid, epoch>>
+                 closer, starting, queued, reader, got, delivered, rxq, sockOpen, c2g, dups, losses, injs, gwf, bus, nsend, ntele, nid, epoch>>
 
 GwGiveUp ==
   /\ EnableHB /\ gw.conn /\ epoch < MaxEpoch /\ BagSize(g2c) < MaxNet
